@@ -826,3 +826,21 @@ def is_chunker_next(facts, f):
         return False
     adt = chunker(facts)["adt"] or ""
     return adt.rsplit("::", 1)[-1] in f.get("self_ty", "") or (f.get("resolved") or "") == chunker(facts)["next"].id
+
+
+# serde's own `impl Serialize for <primitive>`: `x.serialize(s)` is exactly `s.serialize_<method>(x)`
+_PRIMITIVE_SERIALIZE = {"()": "serialize_unit", "bool": "serialize_bool", "char": "serialize_char", "str": "serialize_str", "std::string::String": "serialize_str",
+                        **{t: "serialize_" + t for t in ("i8", "i16", "i32", "i64", "i128", "u8", "u16", "u32", "u64", "u128", "f32", "f64")}}
+
+
+def ser_method_name(f):
+    """The serde::Serializer method a call amounts to: the method itself, or for `Serialize::serialize` on a primitive
+    (`().serialize(s)`, `n.serialize(s)`) the one method serde's impl for that type calls; otherwise the plain name."""
+    if not f:
+        return None
+    if f.get("trait") == "serde::Serialize" and f.get("name") == "serialize":
+        st = (f.get("self_ty") or "").lstrip("&").strip()
+        if st.startswith("mut "):
+            st = st[4:]
+        return _PRIMITIVE_SERIALIZE.get(st, "serialize")
+    return f.get("name")
